@@ -367,6 +367,7 @@ func cAuth(ctx *Ctx, prop string) {
 	}
 	if prop == "C01" {
 		c01Interleave(ctx, shard+100)
+		snapshotsUnderMarks(ctx, "C01/concurrent-snapshot-misses-a-key")
 	}
 }
 
